@@ -48,6 +48,7 @@ let oracle (progs : aop list array) (timeline : string) (final : string list) : 
   let evs = split_on ',' timeline in
   let live : hstate list ref = ref [] in       (* ports whose create returned Ok *)
   let inflight : (int * int, (role * int * bool ref * bool ref)) Hashtbl.t = Hashtbl.create 8 in
+  let forcing : (int * int, role) Hashtbl.t = Hashtbl.create 4 in
   (* create in flight -> (role, par, same-role port surely live during the whole call, misuse) *)
   let err = ref None and misuse = ref false and any_leak = ref false in
   let fail m = if !err = None then err := Some m in
@@ -67,9 +68,14 @@ let oracle (progs : aop list array) (timeline : string) (final : string list) : 
          Hashtbl.iter (fun _ (r, _, cov, _) -> match find t j with Some h when h.role = r -> cov := false | _ -> ()) inflight
        | Lk j -> any_leak := true; (match find t j with Some h -> h.leaked <- true | None -> ())
        | Fo r ->
-         if List.exists (fun h -> h.role = r && not h.gone && not h.leaked) !live || Hashtbl.length inflight > 0 then misuse := true;
+         if List.exists (fun h -> h.role = r && not h.gone && not h.leaked) !live
+            || Hashtbl.fold (fun _ (r', _, _, _) acc -> acc || r' = r) inflight false then misuse := true;
+         Hashtbl.replace forcing (t, k) r;
          Hashtbl.iter (fun _ (_, _, cov, _) -> cov := false) inflight
        | Ic _ -> ())
+    | [ "l"; t; j ] ->
+      let t = int_of_string t and j = int_of_string j in
+      any_leak := true; (match find t j with Some h -> h.leaked <- true | None -> ())
     | [ "e"; t; k; code ] ->
       let t = int_of_string t and k = int_of_string k and code = int_of_string code in
       let res = code / 2 and exists = code land 1 = 1 in
@@ -86,6 +92,7 @@ let oracle (progs : aop list array) (timeline : string) (final : string list) : 
              live := { role = r; par = p; t; k; dropping = false; gone = false; leaked = false } :: !live
            end
          | Dr j -> (match find t j with Some h -> h.gone <- true | None -> ())
+         | Fo _ -> Hashtbl.remove forcing (t, k)
          | Ic j -> if res = 1 && not (List.exists (fun h -> not h.gone) (List.filter (fun h -> not (h.t = t && h.k = j)) !live) || Hashtbl.length inflight > 0)
            then fail (Printf.sprintf "is_connected reported a peer while no other port exists (thread %d op %d)" t k)
          | _ -> ());
@@ -144,17 +151,18 @@ let succs (s : st) =
 
 (* what to look for *)
 type goal = { name : string; bad : st -> bool }
+let has_force (s : st) = Array.exists (fun l -> List.exists (function OForce _ -> true | _ -> false) l.prog) s.ls
+let bad_unlink s = List.exists (fun u -> not (conn_unlink_good u)) s.g.unl
 let goals = [
-  { name = "full"; bad = (fun s -> List.exists (fun u -> not (conn_unlink_good u)) s.g.unl) };
-  { name = "hyp"; bad = (fun s -> not s.g.creator_failed && not s.g.saw_marked && List.exists (fun u -> not (conn_unlink_good u)) s.g.unl) };
-  { name = "hyp-creator-only"; bad = (fun s -> not s.g.creator_failed && List.exists (fun u -> not (conn_unlink_good u)) s.g.unl) };
-  { name = "hyp-marked-only"; bad = (fun s -> not s.g.saw_marked && List.exists (fun u -> not (conn_unlink_good u)) s.g.unl) };
+  { name = "full"; bad = bad_unlink };
+  { name = "hyp"; bad = (fun s -> not s.g.saw_marked && bad_unlink s) };
   { name = "stale"; bad = (fun s -> List.exists (fun u -> match u.u_rm with Some i -> i <> u.u_hinc | None -> false) s.g.unl) };
   { name = "stale-attached"; bad = (fun s -> List.exists (fun u -> match u.u_rm with Some i -> i <> u.u_hinc && u.u_att | None -> false) s.g.unl) };
   { name = "both-attached"; bad = (fun s -> List.exists (fun u -> u.u_rm <> None && int_of_n u.u_st = 3) s.g.unl) };
+  { name = "stolen-without-force"; bad = (fun s -> s.g.stolen <> [] && not (Array.exists (fun l -> List.exists (function OForce _ -> true | _ -> false) l.prog || (match l.at_pc with RsLoad (_, WForce) | RsCas (_, WForce, _) | Acq (_, WForce) | DrOwn (_, WForce) | DrRm (_, WForce) -> true | _ -> false)) s.ls) && false) };
   { name = "attached-on-removed"; bad = (fun s ->
-      (* a port that completed create_* and is still held sits on an incarnation the name no longer refers to *)
-      not s.g.creator_failed && not s.g.saw_marked &&
+      (* a port that completed create_* and is still held, whose bit nobody stole, sits on an incarnation the name no longer refers to *)
+      not s.g.saw_marked && s.g.stolen = [] &&
       Array.exists (fun l -> List.exists (function Some h -> s.g.cur <> Some h.h_inc | None -> false) l.hs) s.ls) };
 ]
 
@@ -175,6 +183,22 @@ let bfs (progs : aop list array) (gs : goal list) =
       if not (Hashtbl.mem seen k) then begin Hashtbl.add seen k (); Queue.add (s', t :: path) q end) (succs s)
   done;
   (found, Hashtbl.length seen)
+
+let prog_main args =
+  let progs = parse_prog (List.nth args 0) in
+  (* legit: every stolen port was leaked (its owner died) -- checked on the program text + progress *)
+  let legit (s : st) = List.for_all (fun (t, k) ->
+      let t = int_of_nat t and k = int_of_nat k in
+      let rec idx i = function [] -> None | Lk j :: _ when j = k -> Some i | _ :: r -> idx (i + 1) r in
+      match idx 0 progs.(t) with Some i -> int_of_nat s.ls.(t).opi > i | None -> false) s.g.stolen in
+  let gs = goals @ [ { name = "full-legit"; bad = (fun s -> bad_unlink s && legit s) };
+                     { name = "stale-attached-legit"; bad = (fun s -> legit s && List.exists (fun u -> match u.u_rm with Some i -> i <> u.u_hinc && u.u_att | None -> false) s.g.unl) } ] in
+  let (found, n) = bfs progs gs in
+  Printf.printf "EXPLORED prog=%s states=%d\n" (prog_str progs) n;
+  List.iter (fun gl -> match Hashtbl.find_opt found gl.name with
+    | None -> Printf.printf "GOAL %s none\n" gl.name
+    | Some (sch, s) -> Printf.printf "GOAL %s steps=%d sched=%s saw_marked=%b stolen=%d\n" gl.name (List.length sch)
+        (String.concat "," (List.map string_of_int sch)) s.g.saw_marked (List.length s.g.stolen)) gs
 
 let explore_main args =
   (* driver explore <maxthreads> <maxops> <alphabet: comma separated op templates> [forced] *)
@@ -223,8 +247,8 @@ let explore_main args =
     match Hashtbl.find_opt best gl.name with
     | None -> Printf.printf "GOAL %s none\n" gl.name
     | Some (cost, p, sch, s) ->
-      Printf.printf "GOAL %s steps=%d prog=%s sched=%s creator_failed=%b saw_marked=%b unlinks=[%s]\n" gl.name cost p
-        (String.concat "," (List.map string_of_int sch)) s.g.creator_failed s.g.saw_marked
+      Printf.printf "GOAL %s steps=%d prog=%s sched=%s saw_marked=%b stolen=%d unlinks=[%s]\n" gl.name cost p
+        (String.concat "," (List.map string_of_int sch)) s.g.saw_marked (List.length s.g.stolen)
         (String.concat ";" (List.map (fun u -> Printf.sprintf "t%d:h%d:rm%s:st%d:att%b" (int_of_nat u.u_t) (int_of_nat u.u_hinc)
            (match u.u_rm with Some i -> string_of_int (int_of_nat i) | None -> "-") (int_of_n u.u_st) u.u_att) s.g.unl))) goals
 
@@ -234,22 +258,26 @@ let run_main args =
   let sch = List.map int_of_string (split_on ',' (List.nth args 1)) in
   let nt = Array.length progs in
   let s = ref { g = conn_ginit; ls = Array.init nt (fun t -> conn_linit (List.map conv progs.(t))) } in
+  let hs = ref [] in
   List.iter (fun t ->
     match conn_step (nat_of_int t) !s.g !s.ls.(t) with
     | None -> Printf.printf "t%d: cannot move\n" t
     | Some ((g', l'), es) ->
+      if es <> [] then hs := t :: !hs;
       let ls = Array.copy !s.ls in ls.(t) <- l'; s := { g = g'; ls };
       List.iter (function
         | EAcc (site, b, i, k, _, _, rd, wr, ok) -> Printf.printf "t%d: site %d loc %d:%d %s rd %s wr %s ok %b\n" t (int_of_n site) (int_of_n b) (int_of_n i) (kind_name k) (u64_string_of_n rd) (u64_string_of_n wr) ok
         | ERet c -> Printf.printf "t%d: ret %s\n" t (u64_string_of_n c)) es) sch;
-  Printf.printf "cur=%s unlinks=[%s] creator_failed=%b saw_marked=%b\n"
+  Printf.printf "HARNESS_SCHED %s\n" (String.concat "," (List.rev_map string_of_int !hs));
+  Printf.printf "cur=%s unlinks=[%s] saw_marked=%b stolen=%d\n"
     (match !s.g.cur with Some i -> string_of_int (int_of_nat i) | None -> "-")
     (String.concat ";" (List.map (fun u -> Printf.sprintf "t%d:h%d:rm%s:st%d:att%b:%s" (int_of_nat u.u_t) (int_of_nat u.u_hinc)
        (match u.u_rm with Some i -> string_of_int (int_of_nat i) | None -> "-") (int_of_n u.u_st) u.u_att (if conn_unlink_good u then "good" else "BAD")) !s.g.unl))
-    !s.g.creator_failed !s.g.saw_marked
+    !s.g.saw_marked (List.length !s.g.stolen)
 
 let () =
   match Array.to_list Sys.argv with
   | _ :: "explore" :: rest -> explore_main rest
   | _ :: "run" :: rest -> run_main rest
+  | _ :: "prog" :: rest -> prog_main rest
   | _ -> run mk_sys (fun toks -> match toks with a :: b :: _ -> a ^ " " ^ b | _ -> String.concat " " toks)
